@@ -45,8 +45,8 @@ for (w, b, k), quick in INT:
         inst(P, 'c14w_int_%s_w%d_b%d_k%d' % (m, w, b, k), 'c14w::int_fail(%d, %d, %d, %s)' % (w, b, k, MODEL[m]),
              tier='quick' if quick and (m == 'limit' or (w, b, k) == (63, 1, 3)) else 'thorough', cap=600,
              shape={'width': w, 'buf_items': b, 'pushes': k, 'fault': m},
-             desc='IntVectorWriter under every %s that rules out the complete file: creation Err, or push panics (documented; path cut at the real unwrap), or close() Err -- never Ok; retry Err too'
-                  % ('file-size limit L < size' if m == 'limit' else 'total byte budget b < bytes of a successful run (short or abrupt)'), **FAIL)
+             desc='IntVectorWriter under every %s that rules out the complete file: creation succeeds; then push panics (documented; path cut at the real unwrap) or close() Err -- never Ok; retry Err too'
+                  % ('file-size limit 32 <= L < size' if m == 'limit' else 'total byte budget 32 <= b < bytes of a successful run (short or abrupt)'), **FAIL)
 B = 100
 RAW = [((64, [63, 64, 1, B], 0), True), ((64, [63, B, B, 64], 2), True), ((0, [B, 0, 1, 63], 1), False), ((128, [64, 63, 64, 64, B, B], 2), False), ((64, [B], 0), False)]
 for (bb, ops, h), quick in RAW:
@@ -61,6 +61,25 @@ for (w, b, k) in ((13, 3, 4), (64, 1, 3), (63, 1, 4)):
     inst(P, 'c14w_int_limit_exact_w%d_b%d_k%d' % (w, b, k), 'c14w::int_limit_exact(%d, %d, %d)' % (w, b, k), tier='quick' if w == 63 else 'thorough',
          shape={'width': w, 'buf_items': b, 'pushes': k}, desc='positive control: file-size limit == final size suffices, file complete', **GHOST)
 inst(P, 'c14w_open_fail', 'c14w::open_fail(13, 3)', desc='open() fails: both writers return Err from creation, nothing opened/closed/written', **GHOST)
+
+# Instances in which the REAL code drops an io::Error (Drop of a writer whose close() fails). The drop glue of
+# io::Error is opaque to symbolic execution and recurses through an unresolved indirect call up to the recursion
+# bound = --unwind (measured: x2.8 per level, unwind 98 does not finish). So: global unwind 3, true bounds per loop.
+DEEP = dict(stubs=['ghost_file', 'push_panic_cut'], models=['close_model.c'], unwind=3, cap=900, mem=8, unwindset={
+    r'io::Write>::write_all$': 3,
+    r'^c12::|^c14w::|^c05::|^stubs_file::': 98,
+    r'File as std::io::Write>::write$': 98,       # ghost_write (a stub carries the name of what it replaces)
+    r'^__rust_|^mem(cmp|cpy|set|move)$|^strlen$': 98,
+    r'path::|slice::Iter|slice::memchr|os_str::': 12,
+})
+for m in ('limit', 'budget'):
+    inst(P, 'c14w_create_fail_%s' % m, 'c14w::create_fail(13, 3, %s)' % MODEL[m], tier='quick' if m == 'limit' else 'thorough',
+         shape={'width': 13, 'buf_items': 3, 'fault': m + ' < 32 bytes'},
+         desc='creation under every %s too small for the placeholder header: with_buf_len returns Err, no panic (incl. Drop of the half-built writer)' % m, **DEEP)
+for (w, b, k) in ((13, 3, 3), (63, 1, 3)):
+    inst(P, 'c14w_drop_after_fail_w%d_b%d_k%d' % (w, b, k), 'c14w::drop_after_fail(%d, %d, %d)' % (w, b, k), tier='quick' if w == 13 else 'thorough',
+         shape={'width': w, 'buf_items': b, 'pushes': k, 'fault': 'limit'},
+         desc='close() fails under every file-size limit 32 <= L < size, then the open writer is dropped: errors ignored, no panic, descriptor closed', **DEEP)
 
 extra(P, assumptions=[
     'c14w failing sink: a Write impl in the harness (no stubs) that accepts b bytes in total, b < size symbolic; the write crossing the budget is short or fails outright (symbolic choice); later writes fail; errors are io::ErrorKind::Other simple values',
